@@ -5,15 +5,15 @@ import SignaloModel.Proofs.SgTableChecks
 /-!
 # C05 — Convolution is an edge-padded FIR; delay shifts by exactly N
 
-Property theorems for C05 (statements are printed by `#check`, axioms by `#check @Registry.conv_registry_correct
-#check @Registry.delay_registry_correct
-#check @Fir.convL_ramp
-#check @Tables.sg_moments
-#print axioms`;
-`bin/check C05` re-elaborates this file on every run and audits the axiom lists).
+The property theorems for C05: `#check` prints each statement, `#print axioms` its axioms;
+`bin/check C05` re-elaborates this file on every run and audits the axiom lists.
 -/
 open SignaloModel
 
+#check @Registry.conv_registry_correct
+#check @Registry.delay_registry_correct
+#check @Fir.convL_ramp
+#check @Tables.sg_moments
 #check @Conv.conv_closed_form
 #check @Conv.taps_invariant
 #check @Conv.pushLoop_fill
@@ -24,6 +24,10 @@ open SignaloModel
 #check @Fir.convL_const
 #check @Tables.sg_close
 
+#print axioms Registry.conv_registry_correct
+#print axioms Registry.delay_registry_correct
+#print axioms Fir.convL_ramp
+#print axioms Tables.sg_moments
 #print axioms Conv.conv_closed_form
 #print axioms Conv.taps_invariant
 #print axioms Conv.pushLoop_fill
@@ -33,7 +37,3 @@ open SignaloModel
 #print axioms Fir.convL_shift
 #print axioms Fir.convL_const
 #print axioms Tables.sg_close
-#print axioms Registry.conv_registry_correct
-#print axioms Registry.delay_registry_correct
-#print axioms Fir.convL_ramp
-#print axioms Tables.sg_moments
